@@ -624,8 +624,8 @@ SWEEP_CONFIGS = [('o', 'p', '-'), ('o', 'p', 's'), ('o', 'p', 't'), ('o', 'p', '
                  ('o', 'h', '-'), ('r', 'h', '-'), ('o', 'H', '-'), ('r', 'H', '-')]
 HANDLER_CLOSE_CONFIGS = [('o', 'H', '-'), ('r', 'H', '-')]
 SWEEP_NAMES = {'o': 'SignalOnly', 'r': 'WithRawSiginfo', 'p': 'pending()', 'w': 'wait()', 'f': 'forever().next()', 'a': 'add_signal(SIGUSR2)', 'd': 'drop(instance)',
-               'c': 'close() of another instance', 'h': 'the handler running for SIGUSR1', 'H': 'the handler running for SIGUSR1'}
-SWEEP_EVENT = {'a': 'one more SIGUSR2 delivered', 'h': 'SIGUSR2 delivered (nested)', 'H': 'close() of another instance called'}
+               'c': 'close() of another instance', 'D': 'drop of the last Handle (object already gone)', 'G': 'the handler running for an instance whose object is gone', 'h': 'the handler running for SIGUSR1', 'H': 'the handler running for SIGUSR1'}
+SWEEP_EVENT = {'G': 'the last Handle dropped by another thread', 'a': 'one more SIGUSR2 delivered', 'h': 'SIGUSR2 delivered (nested)', 'H': 'close() of another instance called'}
 C09_KINDS = ('LOST', 'BLOCKED', 'CRASH')
 C10_KINDS = ('EXTRA', 'UNWATCHED', 'FIELD', 'ORDER', 'CRASH')
 
